@@ -184,6 +184,8 @@ structure PSt (V : Type) where
   out : List V := []
   /-- `observer.on_completed()` was called -/
   completed : Bool := false
+  /-- `observer.on_error(e)` was called (the first one) -/
+  failed : Option Err := none
 
 /-- an exception escaping `on_next` / `on_completed` is RxPY's business (it ends the subscription with `on_error`): here it is
 the `Except` result, with the effects performed before it kept -/
@@ -196,6 +198,7 @@ def setVar (k : Nat) (v : V) : PM V Unit :=
   modify fun s => { s with vars := fun j => if j = k then v else s.vars j }
 def emit (v : V) : PM V Unit := modify fun s => { s with out := s.out ++ [v] }
 def complete : PM V Unit := modify fun s => { s with completed := true }
+def fail (e : Err) : PM V Unit := modify fun s => { s with failed := s.failed <|> some e }
 /-- run from given variable values and an empty output -/
 def run (m : PM V Unit) (vars : Nat → V) : Except Err Unit × PSt V := (ExceptT.run m).run { vars := vars }
 /-- the variable valuation `on_subscribe` starts from -/
